@@ -1,7 +1,8 @@
 import Enc.Model.ProtoRewrite
 import Enc.Spec.Protobuf
 /-! line-protocol handler for `proto.msgrewrite`. Rewriter text (prefix tokens):
-  raw <hex> | multi <n> R*n | msg <k> (<fieldno> R)*k | emb <number> <k> (<fieldno> R)*k -/
+  raw <hex> | multi <n> R*n | msg <k> (<fieldno> R)*k | emb <number> <k> (<fieldno> R)*k | embm <number> <k> (<fieldno> R)*k
+  | repl R        (embm = embddedRewriter{merge: true}, repl = replacement{R}: both built by ParseRewriteTemplate only) -/
 namespace Enc.Driver.ProtoRewrite
 open Enc
 
@@ -43,6 +44,17 @@ def parseRw : Nat → List String → Option ((Model.Proto.Rw × Spec.Protobuf.S
         let ps := sortPairs ps
         pure ((.embedded num (lenOf (ps.map fun p => (p.1, p.2.1))) (ps.map fun p => (p.1, p.2.1)), .embedded num (ps.map fun p => (p.1, p.2.2))), rest)
       | _ => none
+    | "embm" => match rest with
+      | num :: k :: rest => do
+        let num ← num.toNat?
+        let k ← k.toNat?
+        let (ps, rest) ← parsePairs fuel k rest
+        let ps := sortPairs ps
+        pure ((.embeddedMerge num (lenOf (ps.map fun p => (p.1, p.2.1))) (ps.map fun p => (p.1, p.2.1)), .embeddedMerge num (ps.map fun p => (p.1, p.2.2))), rest)
+      | _ => none
+    | "repl" => do
+      let (r, rest) ← parseRw fuel rest
+      pure ((.replacement r.1, .replacement r.2), rest)
     | _ => none
   | _, [] => none
 def parseMany : Nat → Nat → List String → Option (List (Model.Proto.Rw × Spec.Protobuf.SRw) × List String)
@@ -63,13 +75,34 @@ def parsePairs : Nat → Nat → List String → Option (List (Nat × (Model.Pro
   | _, _, [] => none
 end
 
+/-- decidable version of `Lemmas.ProtoRewriteSpec.Sim true`: equal records, or length-delimited records of the same number
+whose payloads are both valid messages with similar records (a sub-message copied verbatim below an `embedded` rewriter
+keeps its non-minimal varints, the specification re-encodes canonically) -/
+def simRecs : Nat → List (Nat × Spec.Protobuf.WireVal) → List (Nat × Spec.Protobuf.WireVal) → Bool
+  | _, [], [] => true
+  | 0, _, _ => false
+  | fuel + 1, (n, a) :: as, (m, b) :: bs =>
+    (n == m) && simRecs fuel as bs &&
+      (Spec.Protobuf.showRec (n, a) == Spec.Protobuf.showRec (m, b) ||
+        match a, b with
+        | .len x, .len y =>
+          match Spec.Protobuf.parse (x.length + 1) x, Spec.Protobuf.parse (y.length + 1) y with
+          | some rx, some ry => simRecs fuel rx ry
+          | _, _ => false
+        | _, _ => false)
+  | _, _, _ => false
+
 def handle (op : String) (args : List String) : Option (String × String × String) :=
   match op, args with
+  -- proto.tmplrewrite <type> <template json hex> <rewriter text> <input hex> [<impl output hex>]: the Go side builds the
+  -- rewriter with ParseRewriteTemplate; the rewriter text is the tree it is expected to build
+  | "proto.tmplrewrite", _ :: _ :: rest => handle "proto.msgrewrite" rest
   | "proto.msgrewrite", rw :: inh :: rest => do
     let toks := tokens rw
     let ((mrw, srw), tl) ← parseRw (toks.length + 2) toks
     if !tl.isEmpty then none
     let inp ← fromHex inh
+    let hasEmbText := toks.any fun t => t == "emb" || t == "embm"
     -- fuel: Lemmas.ProtoRewriteSpec.rewrite_fine needs inp.length + fuelD r; the token count bounds the size of r
     let fuel := 4 * inp.length + 64 + 16 * toks.length
     let m := match Model.Proto.rewrite fuel mrw inp with
@@ -83,7 +116,8 @@ def handle (op : String) (args : List String) : Option (String × String × Stri
          | some ib =>
            (match Spec.Protobuf.specRw fuel srw inp, Spec.Protobuf.parse (ib.length + 1) ib with
             | some want, some got =>
-              if want.map Spec.Protobuf.showRec == got.map Spec.Protobuf.showRec then "ok:" ++ implhex
+              if want.map Spec.Protobuf.showRec == got.map Spec.Protobuf.showRec
+                  || (hasEmbText && simRecs (ib.length + 2) got want) then "ok:" ++ implhex
               else "records:" ++ String.intercalate "," (want.map Spec.Protobuf.showRec)
             | some _, none => "impl-output-not-a-valid-message"
             | none, _ => "-")
